@@ -237,7 +237,14 @@ pub fn run_prog(cx: &mut CaseCtx, p: &Prog, stride: usize) {
             "C03" => report(cx, judge::c03(p.kind, &obs, &rt, f10), p, step),
             "C04" => report(cx, judge::c04(p.kind, &obs, &rt, f10), p, step),
             "C05" => report(cx, judge::c05_image(p.kind, &obs, &rt), p, step),
-            "C14" => c14_observe(cx, &real, &obs, p, step),
+            // (miniature/Miri workload: the six-sink comparison only on the final image)
+            "C14" => {
+                if cx.cfg.mini && step < total {
+                    true
+                } else {
+                    c14_observe(cx, &real, &obs, p, step)
+                }
+            }
             _ => true,
         };
         if !ok {
@@ -382,7 +389,7 @@ pub fn run(cfg: &Cfg) -> Report {
 
     // 1b. layout programs: every pub field of the FADT / FACS carrying a distinguishing value
     //     (unique, asymmetric, non-zero bytes), so a swap, wrong width or wrong offset cannot cancel
-    if matches!(cfg.prop.as_str(), "C01" | "C02" | "C04" | "C14") {
+    if matches!(cfg.prop.as_str(), "C01" | "C02" | "C04" | "C14") && !cfg.mini {
         rep.merge(par_cases(cfg, "tables.layout", cfg.scaled(if thorough { 20_000 } else { 400 }), |cx| {
             let mut r = cx.rng.clone();
             let fadt = cx.idx % 2 == 0;
